@@ -93,14 +93,20 @@ def do_op(ns, op):
     try:
         k = op[0]
         if k == "register":
-            ns.register(op[1], uri_of(op[2]), safe=op[3])
+            # the metadata tag repeats the value token, so that a lookup can tell a torn (uri, metadata) pair
+            ns.register(op[1], uri_of(op[2]), safe=op[3], metadata={"m%d" % op[2]})
             return ["ok"]
         if k == "remove_name":
             return ["count", ns.remove(name=op[1])]
         if k == "remove_prefix":
             return ["count", ns.remove(prefix=op[1])]
         if k == "lookup":
-            return ["val", val_of(ns.lookup(op[1]))]
+            uri, meta = ns.lookup(op[1], return_metadata=True)
+            v = val_of(uri)
+            tags = [int(t[1:]) for t in meta if t.startswith("m") and t[1:].isdigit()]
+            if tags and tags != [v]:
+                return ["internal_error", "torn-read:uri=%d,metadata=%r" % (v, sorted(tags))]
+            return ["val", v]
         if k == "count":
             return ["count", ns.count()]
         if k == "list_all":
@@ -129,7 +135,7 @@ def run_impl(case, backend="memory"):
     try:
         ns = nameserver.NameServer(storage)
         for n, v in case["store"]:
-            ns.register(n, uri_of(v))
+            ns.register(n, uri_of(v), metadata={"m%d" % v})
         ctl = coop.Controller()
         ns.storage = StorageProxy(storage, ctl, backend == "memory")
         ns.lock = coop.CoopRLock(ctl)
